@@ -141,6 +141,9 @@ Definition import_batch_f (tf : tfixes) (fx : fixes) (p : params) (B : Z) (n : n
         | inr IAbandon => if f_import_retry fx then (st, IRetry) else (with_dead st (x_dead st ++ [w]), IAbandon)
         | inr e => (st, e)
         | inl (cs, brs) =>
+            (* (as Import.import_batch: the comparison of the node's block at the batch's upper height with the synced one) *)
+            if f_import_tipcheck fx && negb (node_on_synced n (x_w st) stop) then (st, IRetry)
+            else
             (with_status (with_brecs (with_w st {| credits := cs; synced := synced (x_w st) |}) brs)
                          (setN (x_status st) w (if stop =? best then WReady else WImporting stop)), IOk)
         end
